@@ -55,7 +55,10 @@ TRUSTED = [
     'errors are identified by (class, location path with prefixes removed, reason text with prefixes removed)',
 ]
 ASSUMPTIONS = [
-    'fully loaded (non-lazy) resources, no path / max_depth / hooks arguments (lazy resources are property C06)',
+    'fully loaded (non-lazy) resources, no max_depth / hooks arguments (lazy resources are property C06); the path '
+    'argument is exercised on the schema family without identity constraints only (under a path iter_errors evaluates '
+    'the identity constraints of the ancestors and iter_decode does not; a path selecting undeclared elements is '
+    'skipped by iter_errors and reported by iter_decode — both outside the statement of the property)',
     'ElementTree element/tree sources only for documents without prefix-dependent values (QName content, xsi:type)',
     'the component-level API is compared on documents without ID/IDREF faults (it does not enable identity checks)',
 ]
